@@ -82,7 +82,7 @@ type gluePiece struct {
 	comment bool
 }
 
-var glueTextAtoms = []string{"a", "b", "<", ">", " ", "  ", "\t", "\n", "\r\n", "\n  ", "é", "à", "々", "x y", "<b>", "</b>", "w", "http://x.y", "voilà//fin", "a//b", "//b", "//example.com/x.png", "//"}
+var glueTextAtoms = []string{"a", "b", "<", ">", " ", "  ", "\t", "\n", "\r\n", "\n  ", "\r", "\r  ", " \r", "é", "à", "々", "x y", "<b>", "</b>", "w", "http://x.y", "voilà//fin", "о", "м", "一", "a//b", "//b", "//example.com/x.png", "//"}
 
 func directC15glue(g *G, rep *Report) {
 	n := g.N(2500, 60000)
@@ -111,7 +111,7 @@ func directC15glue(g *G, rep *Report) {
 				// the "//" is then not whitespace, so it is TEXT (http:/* host *///example.com)
 				gluedOK := strings.HasPrefix(s, "//") && len(pieces) > 0 &&
 					(pieces[len(pieces)-1].kind == "tag" || strings.HasSuffix(pieces[len(pieces)-1].src, "*/"))
-				if strings.Contains(s, " //") || strings.Contains(s, "\t//") || strings.Contains(s, "\n//") || (strings.HasPrefix(s, "//") && !gluedOK) || strings.Contains(s, "/*") {
+				if strings.Contains(s, " //") || strings.Contains(s, "\t//") || strings.Contains(s, "\n//") || strings.Contains(s, "\r//") || (strings.HasPrefix(s, "//") && !gluedOK) || strings.Contains(s, "/*") {
 					k--
 					continue
 				}
